@@ -42,9 +42,19 @@ def handle_grad(c):
     pts = np.array([[float(fr(v)) for v in pt] for pt in c['pts']])
     hs = [float(fr(h)) for h in c['h']]
     name = c['method'] if c['variant'] == 'general' else '%dD-%s' % (nd, c['method'])
-    kind = 'grad/%s/%dD' % (name, nd)
+    kind = 'grad/%s/%dD%s' % (name, nd, '/history' if c.get('history') else '')
     it = InterpND(method=name, points=tuple(grids), values=table, extrapolate=True)
-    vals, der = it.interpolate(pts, compute_derivative=True)
+    if c.get('history'):
+        # one interpolant object: out-of-table single-point calls first, then one call per query point
+        for pre in c['pre']:
+            it.interpolate(np.array([[float(fr(v)) for v in pre]]), compute_derivative=True)
+        vals, der = [], []
+        for j in range(len(pts)):
+            vj, dj = it.interpolate(pts[j].reshape(1, nd).copy(), compute_derivative=True)
+            vals.append(float(np.ravel(vj)[0]))
+            der.append(np.ravel(dj))
+    else:
+        vals, der = it.interpolate(pts, compute_derivative=True)
     vals = np.array(vals, dtype=float).ravel()
     der = np.array(der, dtype=float).reshape(len(pts), nd)
     res = [[q(vals[j])] + [q(d) for d in der[j]] for j in range(len(pts))]
